@@ -41,4 +41,20 @@ previous one by one enabled pass, `exline` or `postprocess`; this is the shape `
 theorem C01_schedule (flags : List (String × Bool)) (n : Nat) :
     traceStages flags n = "preprocess" :: (List.replicate n (iterationStages flags)).flatten ++ ["postprocess"] := rfl
 
+/-- what a constructor parameter of a pass class must be given inside `optimize` -/
+def expectedArg : String → String
+  | "prg" => "input_"
+  | p => p            -- `input_predicates`, `output_predicates`: the caller's declarations, under the same name
+
+/-- **every pass is wired to the declarations it is written for**: in `api.optimize` (read from the source on every
+run by `harness/extract_tables.py`) each pass class is constructed with the current program for `prg`, the caller's
+`input_predicates` for its parameter `input_predicates` and the caller's `output_predicates` for `output_predicates`,
+is executed on the current program and its result becomes the current program.  A pass that received the wrong
+declaration list would protect the wrong predicates: the per-pass properties (C08–C16) are stated for the declared
+IN/OUT, so this table theorem is what lets C01 compose them. -/
+theorem C01_wiring :
+    Tables.API_ARGS.map (fun x => (x.1, x.2.1)) = Tables.CTOR_PARAMS.map (fun x => (x.1, x.2.map expectedArg)) ∧
+    Tables.API_ARGS.all (fun x => x.2.2.1 == "input_" && x.2.2.2 == "input_") = true ∧
+    Tables.API_ARGS.map (·.1) = Tables.API_ORDER.map (·.1) := by decide
+
 end NgoVerif
